@@ -4,7 +4,7 @@ use super::{run_built, standard_components, Built, SERVER_IP};
 use crate::entry::{Call, Entry};
 use crate::gen;
 use crate::models::gamespy::{Gs3Server, Gs3State};
-use crate::models::misc::{EcoHttp, EcoState, FfowState, MindustryState, OneShotServer, Savage2State};
+use crate::models::misc::{EcoHttp, EcoState, HttpFraming, HttpTcpServer, FfowState, MindustryState, OneShotServer, Savage2State};
 use crate::models::valve::{self as vm, ValveServer, ValveState};
 use crate::prop::{CaseOut, Prop, Tier};
 use crate::tape::{Tape, CFG, DATA};
@@ -165,9 +165,31 @@ pub fn build(mut t: Tape, game: u64) -> Built {
             let call = mk(Entry::Eco { level }, 3001, if level == 0 { None } else { gen::timeouts_long(&mut t, 0) });
             let expected = st.expected();
             let detail = json!({"game": "eco", "players": st.info["OnlinePlayersNames"].as_array().map(Vec::len), "body_len": st.body().len()});
+            // two cases in three: a real HTTP/1.1 exchange (the HTTP client itself runs, over the simulated
+            // TCP transport), with the framing drawn; otherwise the request-level stub
+            let transport = t.draw(CFG, 3);
+            if transport == 0 {
+                let mut w = World::new(t);
+                w.http = Some(Box::new(EcoHttp { st, expect_host: SERVER_IP.to_string(), expect_port: port.unwrap_or(3001), requests: Vec::new(), fail: None }));
+                return Built { call, world: w, expected, family: "eco".into(), normalise: None, detail };
+            }
+            let body = st.body();
+            let framing = match t.draw(CFG, 3) {
+                0 => HttpFraming::ContentLength,
+                1 => {
+                    let n = t.draw(CFG, 5) as usize;
+                    HttpFraming::Chunked((0 .. n).map(|_| 1 + t.draw(DATA, 3000) as usize).collect())
+                }
+                _ => HttpFraming::UntilClose,
+            };
+            let mut srv = HttpTcpServer::new(body, framing);
+            srv.gzip = t.draw(CFG, 3) == 0;
+            srv.close_after = t.draw(CFG, 2) == 0;
+            let seg = if t.draw(CFG, 2) == 0 { 500_000 } else { 0 };
             let mut w = World::new(t);
-            w.http = Some(Box::new(EcoHttp { st, expect_host: SERVER_IP.to_string(), expect_port: port.unwrap_or(3001), requests: Vec::new(), fail: None }));
-            Built { call, world: w, expected, family: "eco".into(), normalise: None, detail }
+            w.net.tcp_segment_ppm = seg;
+            w.add_server(addr(3001), Proto::Tcp, Box::new(srv));
+            Built { call, world: w, expected, family: "eco-http".into(), normalise: None, detail }
         }
     }
 }
@@ -187,7 +209,7 @@ impl Prop for C07 {
     fn run_case(&self, idx: u64, t: Tape, detail: bool) -> (CaseOut, Tape) {
         let mut out = CaseOut::default();
         let b = build(t, idx % GAMES7);
-        let eco = b.family == "eco";
+        let eco = b.family.starts_with("eco");
         let mut run = run_built(&mut out, b, "game query", detail);
         if eco && matches!(run.result, Some(Ok(_))) {
             out.nontrivial = true;
